@@ -251,9 +251,65 @@ EPS = dict((f.__name__[3:], f) for f in [
     ep_connect_card])
 
 
+def execute_driver(cfg, chooser, want_trace=False):
+    """The same entry points on a real driver (acr122, pn533, rcs380) over the
+    simulated reader of sim/chipsets: every transfer on the host link must be
+    made by a thread that holds the frontend lock, and never while another
+    thread is inside a transfer (a driver that hands work to a thread of its
+    own drives the device outside the lock)."""
+    import nfc.clf
+    from sim import chipsets
+    s = sched.Sched(chooser, max_steps=20000, timer_deviations=False,
+                    trace=want_trace)
+    rec = dict(bad=[], sites=set(), calls=0, tag=True, reader=True, clf=None,
+               results={}, inside=None)
+    tag = chipsets.Tag('T2')
+    sim = chipsets.Sim(cfg['driver'], tag=tag)
+    clf = sim.clf()
+    rec['clf'] = clf
+
+    def hook(op, transport):
+        me = sched.cur()
+        if me is None:
+            return                      # set-up on the controller thread
+        who = me.name
+        owner = clf.lock.owner
+        cls = 'app-thread' if who[:1] == 't' and ':' in who else \
+            'thread-started-by-driver'
+        if owner is not me:
+            rec['bad'].append(('unlocked', 'transport.' + op, cls, None))
+        if rec['inside'] is not None and rec['inside'] != who:
+            rec['bad'].append(('overlap', 'transport.' + op, cls, None))
+        rec['calls'] += 1
+        prev, rec['inside'] = rec['inside'], who
+        try:
+            s.point('driver', 'transport.' + op)
+        finally:
+            rec['inside'] = prev
+    sim.transport.io_hook = hook
+
+    def body(i, name):
+        def run():
+            try:
+                rec['results'][i] = ('ret', EPS[name](clf, rec))
+            except (IOError, nfc.clf.Error) as e:
+                rec['results'][i] = ('err', type(e).__name__)
+            except sched.Abort:
+                raise
+            except BaseException as e:
+                rec['results'][i] = ('exc', e)
+        return run
+    for i, name in enumerate(cfg['eps']):
+        s.spawn(body(i, name), 't%d:%s' % (i, name))
+    s.run()
+    return s, rec
+
+
 def execute(cfg, chooser, want_trace=False):
     import nfc.clf
     import nfc.clf.device
+    if cfg.get('driver'):
+        return execute_driver(cfg, chooser, want_trace)
     eps = cfg['eps']
     s = sched.Sched(chooser, max_steps=4000, timer_deviations=False,
                     trace=want_trace)
@@ -291,6 +347,10 @@ def execute(cfg, chooser, want_trace=False):
 def judge(cfg, s, rec):
     bad = []
     for kind, name, who, line in rec['bad']:
+        if line is None:        # host-link transfer of a real driver
+            bad.append(('%s|%s|%s|%s' % (kind, name, cfg['driver'], who),
+                        dict(thread=who)))
+            continue
         bad.append(('%s|device.%s|clf/__init__.py:%s' % (
             kind, name, site_function(line)), dict(thread=who, line=line)))
     if s.verdict in ('deadlock', 'horizon'):
@@ -361,7 +421,7 @@ def run_cfg(arg):
     run.count('executions', stats.executions)
     run.count('choice_points', stats.choice_points)
     run.count('capped_configs', 1 if stats.capped else 0)
-    if cfg['eps'] == ['exchange', 'close']:
+    if cfg['eps'] == ['exchange', 'close'] and not cfg.get('driver'):
         run.sample(dict(cfg=cfg, executions=stats.executions,
                         max_choice_points=stats.max_depth))
     out = run.export()
@@ -375,6 +435,12 @@ def configs(tier):
     for target in ('none', 'tag'):
         for a, b in itertools.product(names, repeat=2):
             out.append(dict(eps=[a, b], target=target))
+    # real drivers over the simulated reader (host-link transfers)
+    for drv in ('acr122', 'pn533', 'rcs380'):
+        for eps in (['connect_rdwr'], ['connect_rdwr', 'exchange'],
+                    ['connect_rdwr', 'close'], ['sense1', 'exchange'],
+                    ['sense1', 'max_recv'], ['exchange', 'close']):
+            out.append(dict(eps=eps, target='tag', driver=drv, bound=1))
     if tier == 'thorough':
         trio = ['close', 'exchange', 'sense1', 'connect_rdwr', 'open',
                 'max_send']
